@@ -73,15 +73,18 @@ def probe_mean(D, N, order, seed, steps=2):
     return {"ok": not bad, "bad": bad}
 
 
-def _band_state(rng, C, D, N, frac=2 / 3):
+def _band_state(rng, C, D, N, frac=2 / 3, orszag=False):
     kmax = max(int(np.floor(frac * (N // 2) - 1)), 0)
+    if orszag:
+        kmax = N // 3     # the textbook 2/3-rule band |k| <= N/3 (one mode wider than the retained band when 6 | N)
     from .c15 import bandlimited
     u, _ = bandlimited(rng, C, D, N, kmax)
     return u
 
 
-def probe_no_work(D, N, seed):
-    """<u, N(u)> = 0 on band-limited states for the convective terms"""
+def probe_no_work(D, N, seed, orszag=False):
+    """<u, N(u)> = 0 on band-limited states for the convective terms (band: the retained modes of the 2/3 rule, or —
+    `orszag` — every |k_i| <= N/3)"""
     import jax.numpy as jnp
     from exponax import nonlin_fun as nf
     from exponax import spectral as sp
@@ -92,7 +95,7 @@ def probe_no_work(D, N, seed):
 
     def inner(a, b):
         return float(np.sum(a * b))
-    u = _band_state(rng, D, D, N)
+    u = _band_state(rng, D, D, N, orszag=orszag)
     for cons in (True, False):
         if not cons and D > 1:
             continue   # u·∇u does no work only for divergence-free u in D > 1
@@ -101,12 +104,12 @@ def probe_no_work(D, N, seed):
         if D == 1:
             res[f"burgers_energy(conservative={cons})"] = abs(inner(u, nl)) / (np.sum(u * u) ** 1.5 + 1e-12)
     if D == 1:
-        us = _band_state(rng, 1, 1, N)
+        us = _band_state(rng, 1, 1, N, orszag=orszag)
         f = nf.ConvectionNonlinearFun(1, N, derivative_operator=dop, scale=0.7, single_channel=True, conservative=True)
         nl = np.asarray(sp.ifft(f(sp.fft(jnp.asarray(us))), num_spatial_dims=1, num_points=N))
         res["single_channel_energy"] = abs(inner(us, nl)) / (np.sum(us * us) ** 1.5 + 1e-12)
     if D == 2:
-        w = _band_state(rng, 1, 2, N)
+        w = _band_state(rng, 1, 2, N, orszag=orszag)
         w = w - w.mean()
         f = nf.VorticityConvection2d(2, N, convection_scale=1.0, derivative_operator=dop, dealiasing_fraction=2 / 3)
         wh = sp.fft(jnp.asarray(w))
@@ -118,7 +121,7 @@ def probe_no_work(D, N, seed):
         res["vorticity_enstrophy"] = abs(inner(w, nl)) / sc
         res["vorticity_energy"] = abs(inner(psi, nl)) / sc
     if D == 3:
-        v = np.asarray(sp.make_incompressible(jnp.asarray(_band_state(rng, 3, 3, N))))
+        v = np.asarray(sp.make_incompressible(jnp.asarray(_band_state(rng, 3, 3, N, orszag=orszag))))
         f = nf.ProjectedConvection3d(3, N, derivative_operator=dop, dealiasing_fraction=2 / 3)
         nl = np.asarray(sp.ifft(f(sp.fft(jnp.asarray(v))), num_spatial_dims=3, num_points=N))
         res["rotational_energy"] = abs(inner(v, nl)) / (np.sum(v * v) ** 1.5 + 1e-12)
@@ -190,12 +193,16 @@ def oracle(ctx, deep):
         for b in r["bad"]:
             fails.append({"key": f"C09:fixed-point:{b['case']}", "what": f"constant equilibrium {b['case']} is not a fixed point (D={D}, N={N}, order={order}): {b['err']:.2e}",
                           "probe": "fixed_points", "args": {"D": D, "N": N, "order": order, "seed": ctx.seed}, "observed": r})
-    for (D, N) in ([(1, 15), (2, 9), (3, 6)] if not deep else [(1, n) for n in range(9, 20)] + [(2, n) for n in (6, 7, 9, 12)] + [(3, 6), (3, 7)]):
-        r = probe_no_work(D, N, ctx.seed)
-        ctx.count(("oracle_no_work", D, N))
-        for k in r["bad"]:
-            fails.append({"key": f"C09:no-work:{k}", "what": f"convective term does work on a band-limited state ({k}, D={D}, N={N}): {r['bad'][k]:.2e}",
-                          "probe": "no_work", "args": {"D": D, "N": N, "seed": ctx.seed}, "observed": r})
+    # both readings of "band-limited": the modes the 2/3 rule retains, and the textbook band |k_i| <= N/3 (they differ
+    # when 6 | N: there the band edge N/3 is exactly where a product of two edge modes aliases back onto the edge)
+    for (D, N) in ([(1, 15), (1, 12), (1, 18), (2, 9), (2, 12), (3, 6)] if not deep else
+                   [(1, n) for n in range(9, 31)] + [(2, n) for n in (6, 7, 9, 12, 18)] + [(3, 6), (3, 7)]):
+        for orszag in (False, True):
+            r = probe_no_work(D, N, ctx.seed, orszag)
+            ctx.count(("oracle_no_work", D, N, orszag))
+            for k in r["bad"]:
+                fails.append({"key": f"C09:no-work:{k}", "what": f"convective term does work on a band-limited state ({k}, D={D}, N={N}, band {'|k|<=N/3' if orszag else 'retained modes'}): {r['bad'][k]:.2e}",
+                              "probe": "no_work", "args": {"D": D, "N": N, "seed": ctx.seed, "orszag": orszag}, "observed": r})
     seen, out = set(), []
     for f in fails:
         if f["key"] not in seen:
